@@ -272,6 +272,22 @@ const char sr_data[] = R"(
     11.25,  12.0
 )";
 
+// the same relation at a hundredth of the scale: errors (hence fitnesses) of magnitude < 1
+const char small_data[] = R"(
+    -0.09456,-0.100
+    -0.08989,-0.080
+    -0.05721,-0.060
+    -0.03243,-0.040
+    -0.02909,-0.020
+     0.00000, 0.000
+     0.02909, 0.020
+     0.03243, 0.040
+     0.05721, 0.060
+     0.08989, 0.080
+     0.09500, 0.101
+     0.11250, 0.120
+)";
+
 const char class_data[] = R"(
    "A", 1.0, 2.5
    "A", 1.5, 2.0
@@ -300,6 +316,10 @@ int run_sr(unsigned seed, const char *data, evaluator_id ev)
   prob.insert<real::mul>();
   prob.insert<real::ifl>();
   set_env(prob.env);
+  // persistent evaluation cache (search::close() saves it, search::init() reloads it): the file is an optimisation,
+  // an execution that finds the file written by an identical earlier execution must give the same results
+  if (const char *sf = std::getenv("VV_C07_SERFILE"))
+    prob.env.misc.serialization_file = sf;
   random::verif::draw_sink = sink;  // before seeding: no draw between the seed and the log may be missed
   random::seed(seed);
   src_search<i_mep, ES> s(prob);
@@ -528,6 +548,10 @@ int main(int argc, char *argv[])
     rc = run_sr<std_es>(seed, sr_data, evaluator_id::undefined);
   else if (kind == "sr_alps")
     rc = run_sr<alps_es>(seed, sr_data, evaluator_id::undefined);
+  else if (kind == "sr_small")
+    rc = run_sr<std_es>(seed, small_data, evaluator_id::undefined);
+  else if (kind == "sr_small_mse")
+    rc = run_sr<std_es>(seed, small_data, evaluator_id::mse);
   else if (kind == "sr_mse")
     rc = run_sr<std_es>(seed, sr_data, evaluator_id::mse);
   else if (kind == "sr_count")
